@@ -241,6 +241,23 @@ def stepOK (r : Rec) : Bool :=
      | _ => false)
   | _ => true
 
+/-- `stepOK` with the single-lease clause reading the presented id the way the backend does: verbatim on the
+    memory backend (which does not trim single lease ids), trimmed on SQLite. This is the predicate the driver
+    evaluates and `C04_model'` proves. -/
+def stepOK' (r : Rec) : Bool :=
+  match r.op with
+  | .lease k l0 =>
+    let l := if r.cfg.memory then l0 else trimWS l0
+    let noop := match k with | .extend d => decide (d ≤ 0) | _ => false
+    r.after.all (fun m' => (find r.before m'.id).isSome) &&
+    (if noop then r.resp == .ok && r.before.all (inert r) else
+    match r.before.find? (fun m => liveLeased r.now m && m.lease == l && l ≠ "") with
+    | none => isErr r.resp && r.before.all (inert r)
+    | some cur =>
+      if isErr r.resp then r.before.all (inert r)
+      else r.resp == .ok && r.before.all (fun m => if m.id == cur.id then effectOK r k m (find r.after m.id) else inert r m))
+  | _ => stepOK r
+
 end C04
 
 /-! ## C05 — at-least-once visibility -/
@@ -272,6 +289,17 @@ def stepOK (r : Rec) : Bool :=
        | none => false))
   | .restart, _ => r.after == r.before
   | _, _ => true
+
+/-- `stepOK` with the nack clause reading the presented id the way the backend does (see `C04.stepOK'`). -/
+def stepOK' (r : Rec) : Bool :=
+  match r.op, r.resp with
+  | .lease (.nack d) l0, .ok =>
+    r.before.all (fun m =>
+      !(liveLeased r.now m && m.lease == (if r.cfg.memory then l0 else trimWS l0)) ||
+      (match find r.after m.id with
+       | some m' => m'.st == .queued && m'.next == r.now + (if d < 0 then 0 else d)
+       | none => false))
+  | _, _ => stepOK r
 
 end C05
 
@@ -357,8 +385,8 @@ def checkAll (h : Hist) (r : Rec) : Hist × List String :=
   let fails :=
     (if C02.stepOK r then [] else ["C02"]) ++
     (if C03.stepOK h r then [] else ["C03"]) ++
-    (if C04.stepOK r then [] else ["C04"]) ++
-    (if C05.stepOK r then [] else ["C05"]) ++
+    (if C04.stepOK' r then [] else ["C04"]) ++
+    (if C05.stepOK' r then [] else ["C05"]) ++
     (if C12.stepOK r then [] else ["C12"]) ++
     (if C14.stepOK r then [] else ["C14"])
   (C03.advance h r, fails)
